@@ -119,7 +119,8 @@ var c12Classes = []string{
 	"two_files_eval", "front_matter_misc", "eval_error_doc_k", "other_format_file", "json_large",
 }
 
-var c12Modes4 = []os.FileMode{0o644, 0o600, 0o755, 0o640}
+// quick tier: includes group/other-writable modes, which a umask silently strips when a file is re-created instead of chmod-ed
+var c12Modes4 = []os.FileMode{0o644, 0o664, 0o600, 0o775, 0o640, 0o666}
 var c12ModesAll = []os.FileMode{0o644, 0o600, 0o755, 0o640, 0o664, 0o660, 0o700, 0o666, 0o777, 0o750}
 
 var c12Words = []string{"alpha", "bravo", "charlie", "delta", "echo", "foxtrot", "golf", "hotel", "india", "juliet", "kilo", "lima"}
@@ -276,7 +277,7 @@ func c12GenPair(r *rand.Rand, pairNo int, tier string, seed int64) c12Pair {
 	if tier == "thorough" {
 		p.Mode = c12ModesAll[r.IntN(len(c12ModesAll))]
 	} else {
-		p.Mode = c12Modes4[(pairNo+int(uint64(seed)%4))%4]
+		p.Mode = c12Modes4[(pairNo+int(uint64(seed)%6))%len(c12Modes4)]
 	}
 	yamlFile := func(s string) c12File { return c12File{"doc.yaml", []byte(s)} }
 	switch class {
